@@ -168,6 +168,7 @@ VALID = [
     " I --- 04:056053 --:------ 01:145038 3150 002 0100",
     " I --- 01:145038 --:------ 01:145038 2309 006 0007D00107D0",
     " W --- 18:000730 01:145038 --:------ 2309 003 0107D0",
+    " I --- 01:999999 --:------ 01:999999 1F09 003 FF0A00",  # a second controller's sync cycle (the port transport tracks those)
 ]
 BAD = {
     "blank": "",
@@ -192,6 +193,11 @@ BAD = {
     "non-ascii": "045  I --- 01:145038 --:------ 01:145038 1F09 003 FF05é",
     "long": "045  I --- 01:145038 --:------ 01:145038 1F09 099 " + "00" * 99,
     "313e-overflow": "045  I --- 30:000001 --:------ 30:000001 313E 011 00FFFFFFFFFFFFFFFFFFFF",
+    # sync-cycle frames that are well-formed as frames but whose payload the decoder rejects (the port transport looks at them first)
+    "sync-1-byte": "045  I --- 01:145038 --:------ 01:145038 1F09 001 FF",
+    "sync-2-bytes": "045  I --- 01:145038 --:------ 01:145038 1F09 002 FF05",
+    "sync-4-bytes": "045  I --- 01:145038 --:------ 01:145038 1F09 004 FF053200",
+    "sync-1-byte-third-ctl": "045  I --- 01:888888 --:------ 01:888888 1F09 001 FF",
 }
 
 
@@ -333,8 +339,8 @@ def run(ctx) -> None:
         total,
         rule="(1) every single edit (substitute each of '078FG-: #*<', delete, insert '0F ' at every position; length/payload/address/code/verb field "
         "edits) of one line per distinct (verb, code, length, address shape, device types) signature of the repo's logs, through Packet.from_file/"
-        "from_port/from_dict + Message, and in batches through the real FileTransport+ReadProtocol; (2) each of 22 bad-line classes x every position "
-        "in a 6-line stream x {dict, log, serial one-read, serial line-per-read, MQTT message} + MQTT envelopes with undatable / zone-less / fraction-less timestamps at every position; every 4th base's single-edit candidates also through MqttTransport._on_message; (3) every partition of a 236-byte serial stream into reads with "
+        "from_port/from_dict + Message, and in batches through the real FileTransport+ReadProtocol; (2) each of 26 bad-line classes x every position "
+        "in a 7-line stream (incl. sync cycles of two controllers) x {dict, log, serial one-read, serial line-per-read, MQTT message} + MQTT envelopes with undatable / zone-less / fraction-less timestamps at every position; every 4th base's single-edit candidates also through MqttTransport._on_message; (3) every partition of a 236-byte serial stream into reads with "
         "<= 2 (thorough 3) cuts, all-1-byte reads, an empty read at every position. non-trivial = candidates that still decode / streams / partitions",
         exhaustive=True,
     )
